@@ -316,7 +316,7 @@ def junk_values():
 
 
 def part_a(ctx, rng):
-    n_seq = 13 if ctx.quick else 70
+    n_seq = 13 if ctx.quick else 40
     n_seq_lfr = 5 if ctx.quick else 24
     for name, make, n, mode in label_detectors():
         encs = agreement_encodings() if mode == "agreement" else cell_encodings()
